@@ -183,8 +183,8 @@ class C09(Driver):
                 break
             return Violation("C09/crash/sanitizer/%s/in=%s" % (kind, fn), "phase %d: %s" % (ph, log[-1500:]))
         if out.startswith("crash"):
-            return Violation("C09/crash/signal-%s/phase=%s" % (out.split(":")[1], "first-vm" if ph == 0 else "after-restart"),
-                             "phase %d; log tail: %s" % (ph, log[-600:]))
+            # (the history of a crashed run is not flushed, so the phase is not known reliably)
+            return Violation("C09/crash/signal-%s" % out.split(":")[1], "last phase seen %d; log tail: %s" % (ph, log[-600:]))
         return Violation("C09/run/%s/phase=%s" % (out.split(":")[0], "first-vm" if ph == 0 else "after-restart"),
                          "phase %d; log tail: %s" % (ph, log[-600:]))
 
